@@ -110,11 +110,14 @@ func vDamagedData(otherLoaders bool) {
 		vrt.Reach("damage/records-swapped")
 	}
 
-	onRead := vrt.Choose("verify", 2) == 1
+	verify := vrt.Choose("verify", 3)
 	var r SSTableReaderI
 	var err error
-	if onRead {
+	if verify == 1 {
 		r, err = NewSSTableReader(ReadBasePath(dir), ReadBufferSizeBytes(64), ReadIndexLoader(vLoader(li, 64)), SkipHashCheckOnLoad(), EnableHashCheckOnReads())
+	} else if verify == 2 {
+		// the two options are independent switches: their order means nothing
+		r, err = NewSSTableReader(ReadBasePath(dir), ReadBufferSizeBytes(64), ReadIndexLoader(vLoader(li, 64)), EnableHashCheckOnReads(), SkipHashCheckOnLoad())
 	} else {
 		r, err = NewSSTableReader(ReadBasePath(dir), ReadBufferSizeBytes(64), ReadIndexLoader(vLoader(li, 64)))
 	}
